@@ -227,15 +227,15 @@ func (pb *patternBuilder) getUnion() (s byteSet, err error) {
 		neg = true
 		b, err = pb.next()
 	}
-	if b == ']' {
-		s.add(b)
-		b, err = pb.next()
-	}
+	// A ']' in first position stands for itself (and can start a range).
+	first := true
 	var r byteSet
 Loop:
 	for err == nil {
+		isFirst := first
+		first = false
 		switch {
-		case b == ']':
+		case b == ']' && !isFirst:
 			if neg {
 				s.complement()
 			}
